@@ -562,9 +562,12 @@ class HttpProxyPlugin(HttpProtocolHandlerPlugin):
                 # https://developer.mozilla.org/en-US/docs/Web/HTTP/Headers/Connection
                 # connection headers are meant for communication between client and
                 # first intercepting proxy.
-                self.request.add_headers(
-                    [(b'Via', b'1.1 %s' % PROXY_AGENT_HEADER_VALUE)],
-                )
+                # Append to a Via field received from a downstream proxy
+                # instead of replacing it (RFC 7230 section 5.7.1).
+                via = b'1.1 %s' % PROXY_AGENT_HEADER_VALUE
+                if self.request.has_header(b'via'):
+                    via = self.request.header(b'via') + b', ' + via
+                self.request.add_headers([(b'Via', via)])
                 # Disable args.disable_headers before dispatching to upstream
                 self.upstream.queue(
                     memoryview(
